@@ -8,7 +8,9 @@ from facts import short, strip_generics, show_chain, walk_chain, chain_calls
 PROPERTY = "C10"
 TITLE = "Out-of-range indexing and wrong #unwrap always abort before touching memory"
 NEEDS = ("syn", "facts")
-TECHNIQUE = "static analysis: dominance on the code generator's MIR CFG (check emitted before access), def-use chains for condition code / operands / length source, call-sequence rule for the fault path"
+TECHNIQUE = ("static analysis: dominance on the code generator's MIR CFG (check emitted before access), def-use chains for condition code / operands / length source, "
+             "call-sequence rule for the fault path, path rules over the Index and Member arms (no result before the index is evaluated and checked), "
+             "abstract evaluation of get_tagged_union_discrim (the tag #unwrap compares with)")
 EXPLANATION = (
     "Engine A: inside the Expr::Index arm of the code generator, every instruction that forms or uses the element address "
     "(iadd(source, byte_offset), the element load, the returned address) is emitted in a MIR block dominated by the call "
